@@ -105,6 +105,10 @@ def binop(ex, st, op, a, b, node=None):
             for s3, bv in ex.force(s2, b):
                 res.extend(binop(ex, s3, op, av, bv, node))
         return res
+    if isinstance(a, VOpaque) or isinstance(b, VOpaque):
+        # arithmetic / concatenation with an unknown value: an unknown value (a possible TypeError is not modelled)
+        ex.used_stubs.add('operators applied to opaque values yield opaque values (no TypeError modelled)')
+        return [(st, VOpaque(name='binop'))]
     if isinstance(a, VNone) or isinstance(b, VNone):
         if st.spec:
             raise Unsupported('arithmetic on None in spec')
